@@ -123,11 +123,16 @@ def check(prog: Program, run: Run) -> None:
     run.rule("C04.R5", "non-settable parameter kinds reject an explicitly supplied value",
              floor=4)
     run.rule("C04.G5", "absent values are tested by identity, not truthiness", floor=10)
+    run.rule("C04.R6", "encoder state that decides what is emitted (is_end_of_pdu, origin, "
+             "allow_unknown_parameters) is saved, set and restored on every path: a stale flag "
+             "makes the encoder drop a terminator silently (shared with C01.R1)", floor=14)
     _escape(prog, run)
     _alterations(prog, run)
     _representability(prog, run)
     from . import c02
     common.run_as(run, "C02.R2", "C04.R3", lambda r: c02._atomic_sites(prog, r))
+    from . import c01
+    common.run_as(run, "C01.R1", "C04.R6", lambda r: c01._pairing(prog, r))
     _required_unknown(prog, run)
     _non_settable(prog, run)
     common.g5_absence_by_truthiness(prog, run, "C04.G5", [
